@@ -938,6 +938,12 @@ func (g *TxGen) finish(t *rapid.T, a *Actor, acct *staking.Account, method trans
 	if bal := acct.General.Balance.ToBigInt(); bal.IsUint64() && bal.Uint64() > g.W.Spec.MinTransact && rapid.IntRange(0, 2).Draw(t, "payFee") > 0 {
 		feeAmt = rapid.Uint64Range(1, minU64(bal.Uint64()-g.W.Spec.MinTransact, 1000)).Draw(t, "fee")
 	}
+	if p := g.W.Spec.ConsMinGasPrice; p > 0 && gas < 1<<40 && rapid.IntRange(0, 3).Draw(t, "payMinGasPrice") > 0 {
+		// a consensus-wide minimum gas price is in force: mostly pay it (when affordable), sometimes stay below it
+		if bal := acct.General.Balance.ToBigInt(); bal.IsUint64() && bal.Uint64() >= gas*p+g.W.Spec.MinTransact {
+			feeAmt = gas * p
+		}
+	}
 	signer := a.Signer
 	if bal := acct.General.Balance.ToBigInt(); !bal.IsUint64() || bal.Uint64() < feeAmt+g.W.Spec.MinTransact {
 		d.ExpectAuthOK = false // below fee + minimum transact balance
